@@ -359,6 +359,7 @@ class _RangeWrapper:
         start_byte: int = 0,
         byte_range: int | None = None,
     ):
+        self._wrapped = iterable
         self.iterable = iter(iterable)
         self.byte_range = byte_range
         self.start_byte = start_byte
@@ -426,6 +427,10 @@ class _RangeWrapper:
     def close(self) -> None:
         if hasattr(self.iterable, "close"):
             self.iterable.close()
+
+        # The wrapped object may be an iterable that is not its own iterator.
+        if self._wrapped is not self.iterable and hasattr(self._wrapped, "close"):
+            self._wrapped.close()
 
 
 class LimitedStream(io.RawIOBase):
